@@ -60,6 +60,14 @@ func ruleNilHandle(r *core.Reporter) {
 			k := core.FuncName(fn) + "/" + m
 			count[k]++
 			key := fmt.Sprintf("%s#%d", k, count[k])
+			switch pathNilStatus(fn, cc.Args[0], in) {
+			case "safe":
+				r.Held(key, 1, "receiver is non-nil on every path that reaches the call (constructor error checked; (value, error) convention)")
+				return
+			case "nil":
+				r.Violated(key, p.InstrPos(in), "%s() is reached on a path on which its *goada.Url receiver is nil (zero value or the nil a failed parse hands back): nil pointer dereference inside the cgo wrapper, the process dies (no recover)", m)
+				return
+			}
 			if why := handleUnsafe(fn, cc.Args[0], in, 0); why != "" {
 				r.Violated(key, p.InstrPos(in), "%s() is called on a *goada.Url that %s: nil pointer dereference inside the cgo wrapper, the process dies (no recover)", m, why)
 			} else {
@@ -335,4 +343,71 @@ func cellUnsafeAt(fn *ssa.Function, cell *ssa.Alloc, at ssa.Instruction, depth i
 		}
 	}
 	return ""
+}
+
+// pathNilStatus explores every path from the function's entry to `at` with the path environment (constants and nil
+// facts per phi, facts about tested values, err == nil ⇒ value != nil for (value, error) calls) and reports whether
+// the receiver is non-nil on all of them ("safe"), nil on one ("nil"), or not decided this way ("unknown").
+func pathNilStatus(fn *ssa.Function, recv ssa.Value, at ssa.Instruction) string {
+	recv = ir.Strip(recv)
+	seen, sawNil, sawUnknown := false, false, false
+	ph, isPhi := recv.(*ssa.Phi)
+	opts := ir.Opts{ErrNilImpliesValue: true}
+	if isPhi {
+		var last func(*ssa.Phi) (ssa.Value, bool)
+		opts.Observe = func(in ssa.Instruction, phiVal func(*ssa.Phi) (ssa.Value, bool)) {
+			if in == at {
+				last = phiVal
+			}
+		}
+		opts.ObserveFacts = func(in ssa.Instruction, fact func(ssa.Value) (bool, bool)) {
+			if in != at || last == nil {
+				return
+			}
+			seen = true
+			v, known := last(ph)
+			switch {
+			case !known:
+				sawUnknown = true
+			case ir.IsNilConst(v):
+				sawNil = true
+			default:
+				if nn, ok := fact(v); !ok || !nn {
+					if _, isC := v.(*ssa.Const); isC {
+						sawNil = true
+					} else {
+						sawUnknown = true
+					}
+				}
+			}
+		}
+	} else {
+		if _, isLoad := recv.(*ssa.UnOp); isLoad {
+			return "unknown"
+		}
+		if ir.IsNilConst(recv) {
+			return "nil"
+		}
+		opts.ObserveFacts = func(in ssa.Instruction, fact func(ssa.Value) (bool, bool)) {
+			if in != at {
+				return
+			}
+			seen = true
+			nn, ok := fact(recv)
+			switch {
+			case !ok:
+				sawUnknown = true
+			case !nn:
+				sawNil = true
+			}
+		}
+	}
+	ir.Reach([]ir.Pt{ir.Entry(fn)}, opts)
+	switch {
+	case sawNil:
+		return "nil"
+	case !seen || sawUnknown:
+		return "unknown"
+	}
+	return "safe"
 }
